@@ -117,6 +117,26 @@ type E2E struct {
 	SetupErr  string    `json:"setup_err,omitempty"`
 }
 
+// RaceCase: goroutines racing on one mail office.
+type RaceCase struct {
+	Dials    int      `json:"dials"`
+	Forgers  int      `json:"forgers"`
+	IDs      []uint64 `json:"ids"`      // id of each dial
+	Got      []string `json:"got"`      // per dial: tag received, or closed/timeout
+	Crossed  []string `json:"crossed"`  // descriptions of dials that got a connection not made for them
+	ForgedOK int      `json:"forged_ok"` // forged deliveries (wrong key) that were not refused
+	Left     int      `json:"left"`     // boxes still filed at the end
+}
+
+// RegenCase: two registrations of one name (two offices); the stale side
+// connection of the first arrives at the second with the same id.
+type RegenCase struct {
+	ID       string     `json:"id"`
+	Key1     string     `json:"key1"`
+	Key2     string     `json:"key2"`
+	Office   []OfficeOp `json:"office"` // the operations on the second office
+}
+
 type Case struct {
 	I      int        `json:"i"`
 	Stream string     `json:"stream"`
@@ -125,6 +145,8 @@ type Case struct {
 	Office []OfficeOp `json:"office,omitempty"`
 	Conns  []ConnsOp  `json:"conns,omitempty"`
 	IDs    [][]uint64 `json:"ids,omitempty"`
+	Race   *RaceCase  `json:"race,omitempty"`
+	Regen  *RegenCase `json:"regen,omitempty"`
 	E2E    *E2E       `json:"e2e,omitempty"`
 	Crash  string     `json:"crash,omitempty"`
 }
@@ -432,6 +454,131 @@ func runOffice(r *hx.Rng, nops int) []OfficeOp {
 	return ops
 }
 
+// ---- race stream ----
+
+func runRace(r *hx.Rng, dials, forgers int) *RaceCase {
+	c := &RaceCase{Dials: dials, Forgers: forgers, IDs: make([]uint64, dials), Got: make([]string, dials), Crossed: []string{}}
+	v := sniproxy.NewVerifOffice()
+	keys := make([]uint64, dials)
+	for i := range keys {
+		keys[i] = r.U64() | 1 // forged keys below are even: never equal
+	}
+	type pending struct {
+		id, key uint64
+		h       int
+	}
+	boxed := make(chan pending, dials)
+	var wg sync.WaitGroup
+	var mu sync.Mutex
+	start := make(chan struct{})
+	// the dials
+	for i := 0; i < dials; i++ {
+		wg.Add(1)
+		go func(i int) {
+			defer wg.Done()
+			<-start
+			id := v.Next()
+			h := v.NewBox(id, keys[i])
+			boxed <- pending{id, keys[i], h}
+			deadline := time.Now().Add(10 * time.Second)
+			res := "timeout"
+			for time.Now().Before(deadline) {
+				q, cl := v.Pending(h)
+				if q || cl {
+					kind, tag := v.Receive(h, true)
+					res = kind
+					if kind == "conn" {
+						res = strconv.FormatUint(tag, 10)
+						if tag != uint64(h) {
+							mu.Lock()
+							c.Crossed = append(c.Crossed, fmt.Sprintf("dial %d (id %d, box %d) received connection #%d", i, id, h, tag))
+							mu.Unlock()
+						}
+					}
+					break
+				}
+				time.Sleep(50 * time.Microsecond)
+			}
+			v.CleanUp(h)
+			mu.Lock()
+			c.IDs[i], c.Got[i] = id, res
+			mu.Unlock()
+		}(i)
+	}
+	// the endpoint answering each dial: the connection is named after the box
+	wg.Add(1)
+	go func() {
+		defer wg.Done()
+		for i := 0; i < dials; i++ {
+			p := <-boxed
+			v.Deliver(p.id, p.key, uint64(p.h))
+		}
+	}()
+	// forgers: every id that may be in use, keys that are never right
+	stop := make(chan struct{})
+	var fwg sync.WaitGroup
+	for f := 0; f < forgers; f++ {
+		fwg.Add(1)
+		go func(seed uint64) {
+			defer fwg.Done()
+			fr := hx.NewRng(seed)
+			<-start
+			for {
+				select {
+				case <-stop:
+					return
+				default:
+				}
+				id := uint64(fr.Intn(dials + 2))
+				key := fr.U64() &^ 1
+				if v.Deliver(id, key, 1000000+uint64(fr.Intn(1000))) == "ok" {
+					mu.Lock()
+					c.ForgedOK++
+					mu.Unlock()
+				}
+			}
+		}(r.U64())
+	}
+	close(start)
+	wg.Wait()
+	close(stop)
+	fwg.Wait()
+	c.Left = len(v.Keys())
+	return c
+}
+
+// ---- regen stream ----
+
+func runRegen(r *hx.Rng) *RegenCase {
+	k1, k2 := r.U64(), r.U64()
+	if k1 == k2 {
+		k2++
+	}
+	old, cur := sniproxy.NewVerifOffice(), sniproxy.NewVerifOffice()
+	// registration 1: a dial in flight (id 0, key k1), its side connection is slow
+	id1 := old.Next()
+	old.NewBox(id1, k1)
+	// registration 2 of the same name: its first dial also has id 0
+	c := &RegenCase{Key1: u(k1), Key2: u(k2)}
+	id2 := cur.Next()
+	c.ID = u(id2)
+	c.Office = append(c.Office, OfficeOp{Op: "next", Res: "id", Val: u(id2)})
+	h := cur.NewBox(id2, k2)
+	c.Office = append(c.Office, OfficeOp{Op: "newbox", ID: u(id2), Key: u(k2), Res: "handle", Val: strconv.Itoa(h)})
+	// the stale websocket arrives first, routed by name to the current office
+	c.Office = append(c.Office, OfficeOp{Op: "deliver", ID: u(id1), Key: u(k1), Tag: "777", Res: cur.Deliver(id1, k1, 777)})
+	c.Office = append(c.Office, OfficeOp{Op: "deliver", ID: u(id2), Key: u(k2), Tag: strconv.Itoa(h), Res: cur.Deliver(id2, k2, uint64(h))})
+	kind, tag := cur.Receive(h, true)
+	op := OfficeOp{Op: "receive", H: h, Res: kind}
+	if kind == "conn" {
+		op.Val = u(tag)
+	}
+	c.Office = append(c.Office, op)
+	cur.CleanUp(h)
+	c.Office = append(c.Office, OfficeOp{Op: "cleanup", H: h, Res: "done"})
+	return c
+}
+
 // ---- conns stream ----
 
 func runConns(r *hx.Rng, nops int) []ConnsOp {
@@ -568,6 +715,9 @@ func runE2E(r *hx.Rng, mode string, neps, nconns int) *E2E {
 		}
 		for j, n := 0, 1+r.Intn(4); j < n; j++ {
 			size := []int{1, 100, 4096, 5000, 20000}[r.Intn(5)]
+			if bigRounds && r.Intn(16) == 0 {
+				size = 300000
+			}
 			chunk := bytes.Repeat([]byte(p.tag+"|"), size/len(p.tag+"|")+1)[:size]
 			p.chunks = append(p.chunks, chunk)
 		}
@@ -683,6 +833,8 @@ func runE2E(r *hx.Rng, mode string, neps, nconns int) *E2E {
 
 // ---- main ----
 
+var bigRounds bool
+
 type spec struct {
 	stream string
 	seed   uint64
@@ -690,13 +842,23 @@ type spec struct {
 	mode   string
 }
 
-func plan(seed uint64, n int, e2eRounds int) []spec {
+func plan(seed uint64, n int, e2eRounds int, only string) []spec {
 	r := hx.NewRng(seed)
 	var ss []spec
+	if only == "race" {
+		for len(ss) < n {
+			ss = append(ss, spec{stream: "race", seed: r.U64(), a: 2 + r.Intn(30), b: 1 + r.Intn(4)})
+		}
+		return ss
+	}
+	ss = append(ss, spec{stream: "regen", seed: r.U64()}) // corpus: stale side connection after re-registration
 	for i := 0; i < e2eRounds; i++ {
 		mode := e2e.Modes[i%3]
 		neps := 2 + r.Intn(5)
 		nconns := []int{8, 24, 64}[r.Intn(3)]
+		if bigRounds && i%3 == 0 {
+			nconns = []int{128, 256}[r.Intn(2)]
+		}
 		ss = append(ss, spec{stream: "e2e", seed: r.U64(), a: neps, b: nconns, mode: mode})
 	}
 	for len(ss) < n {
@@ -707,8 +869,14 @@ func plan(seed uint64, n int, e2eRounds int) []spec {
 			ss = append(ss, spec{stream: "route", seed: r.U64()})
 		case c < 17:
 			ss = append(ss, spec{stream: "office", seed: r.U64(), a: 10 + r.Intn(60)})
-		case c < 19:
+		case c < 18:
 			ss = append(ss, spec{stream: "conns", seed: r.U64(), a: 5 + r.Intn(40)})
+		case c < 19:
+			if r.Intn(3) == 0 {
+				ss = append(ss, spec{stream: "regen", seed: r.U64()})
+			} else {
+				ss = append(ss, spec{stream: "race", seed: r.U64(), a: 2 + r.Intn(30), b: 1 + r.Intn(4)})
+			}
 		default:
 			ss = append(ss, spec{stream: "ids", seed: r.U64(), a: 2 + r.Intn(15), b: 1 + r.Intn(200)})
 		}
@@ -733,6 +901,10 @@ func runSpec(i int, s spec) (c Case) {
 		c.Office = runOffice(r, s.a)
 	case "conns":
 		c.Conns = runConns(r, s.a)
+	case "race":
+		c.Race = runRace(r, s.a, s.b)
+	case "regen":
+		c.Regen = runRegen(r)
 	case "ids":
 		c.IDs = sniproxy.VerifSessionIDs(s.a, s.b)
 	case "e2e":
@@ -745,13 +917,16 @@ func main() {
 	seed := flag.Uint64("seed", 1, "seed")
 	n := flag.Int("n", 500, "number of cases")
 	rounds := flag.Int("e2e", 6, "number of end-to-end rounds")
+	only := flag.String("only", "", "run only this stream (race)")
+	big := flag.Bool("big", false, "larger end-to-end rounds (up to 256 concurrent connections)")
 	child := flag.Bool("child", false, "child mode")
 	from := flag.Int("from", 0, "first case (child)")
 	mem := flag.Uint64("mem", 6<<30, "address-space limit of the child")
 	flag.Parse()
 	e2e.Quiet()
 
-	ss := plan(*seed, *n, *rounds)
+	bigRounds = *big
+	ss := plan(*seed, *n, *rounds, *only)
 	out := hx.NewOut(os.Stdout)
 	if *child {
 		hx.LimitMemory(*mem)
@@ -761,7 +936,10 @@ func main() {
 		}
 		return
 	}
-	args := []string{"-seed", strconv.FormatUint(*seed, 10), "-n", strconv.Itoa(*n), "-e2e", strconv.Itoa(*rounds)}
+	args := []string{"-seed", strconv.FormatUint(*seed, 10), "-n", strconv.Itoa(*n), "-e2e", strconv.Itoa(*rounds), "-only", *only}
+	if *big {
+		args = append(args, "-big")
+	}
 	err := hx.RunIsolated(len(ss), args, *mem,
 		func(i int, raw []byte) { os.Stdout.Write(append(raw, '\n')) },
 		func(i int, why string) {
